@@ -234,6 +234,42 @@ func buildRecord(c combo) (store func(st nodeenrollment.Storage, opt ...nodeenro
 
 var ctx = vkit.NewWorld(vkit.WorldConfig{NoRoots: true}).Ctx
 
+// regenerate replaces, in place, the sensitive values of a record (the one
+// handed to Store, or the one Load returned) by fresh ones, as an application
+// does when it rotates keys or re-issues a token under the same id; it returns
+// the new secrets.
+func regenerate(m proto.Message, c combo) (secrets []secret) {
+	switch n := m.(type) {
+	case *types.NodeCredentials:
+		pkix, pkcs8, seed := edKey()
+		n.CertificatePublicKeyPkix, n.CertificatePrivateKeyPkcs8 = pkix, pkcs8
+		n.EncryptionPrivateKeyBytes = rnd(32)
+		secrets = append(secrets, secret{"certificate-private-key", pkcs8}, secret{"certificate-private-key-seed", seed}, secret{"encryption-private-key", n.EncryptionPrivateKeyBytes})
+		if c.Nonce {
+			n.RegistrationNonce = rnd(32)
+			secrets = append(secrets, secret{"registration-nonce", n.RegistrationNonce})
+		}
+	case *types.NodeInformation:
+		n.ServerEncryptionPrivateKeyBytes = rnd(32)
+		secrets = append(secrets, secret{"server-encryption-private-key", n.ServerEncryptionPrivateKeyBytes})
+	case *types.RootCertificates:
+		for _, rc := range []*types.RootCertificate{n.Current, n.Next} {
+			pkix, pkcs8, seed := edKey()
+			rc.PublicKeyPkix, rc.PrivateKeyPkcs8 = pkix, pkcs8
+			secrets = append(secrets, secret{rc.Id + "-root-private-key", pkcs8}, secret{rc.Id + "-root-private-key-seed", seed})
+		}
+	case *types.ServerLedActivationToken:
+		n.CreationTime = timestamppb.New(time.Unix(1_700_000_000+mrand.Int63n(100_000_000), mrand.Int63n(1_000_000_000)))
+		mb, _ := proto.Marshal(n.CreationTime)
+		secrets = append(secrets, secret{"creation-time", mb})
+	}
+	return secrets
+}
+
+type storer interface {
+	Store(context.Context, nodeenrollment.Storage, ...nodeenrollment.Option) error
+}
+
 func allCombos() []combo {
 	var out []combo
 	for _, b := range []bool{false, true} {
@@ -325,6 +361,49 @@ func checkCombo(t vkit.TB, c combo) bool {
 	if pv, _ := vkit.Guard(func() { _, err = load(st, nodeenrollment.WithStorageWrapper(wb)) }); pv == nil && err == nil {
 		vkit.Violate(t, prop, "C12/load-with-other-wrapper-succeeded/"+c.Type, "a sealed record loaded with a different wrapper", c)
 		return false
+	}
+	// second generation under the same id: the record that was handed to Store, or
+	// the record Load returned, gets fresh sensitive values and is stored again
+	for _, src := range []struct {
+		name string
+		msg  proto.Message
+	}{{"the-message-stored-before", orig}, {"the-message-load-returned", got}} {
+		if c.OptState && c.Type == "RootCertificates" {
+			continue // the option-supplied state is a property of the first call only
+		}
+		secrets2 := regenerate(src.msg, c)
+		want2 := proto.Clone(src.msg)
+		st.Reset()
+		rec.Case("re-store/"+c.Type+"/"+src.name, fmt.Sprintf("%+v|%s", c, src.name), true, func() any { return map[string]any{"fields": c, "second_store_of": src.name} })
+		if err := src.msg.(storer).Store(ctx, st, nodeenrollment.WithStorageWrapper(wa)); err != nil {
+			vkit.Violate(t, prop, "C12/re-store-failed/"+c.Type, err.Error(), c)
+			return false
+		}
+		if !scan(t, st.Log(), secrets2, map[string]any{"fields": c, "second_store_of": src.name}) {
+			return false
+		}
+		got2, err := load(st, nodeenrollment.WithStorageWrapper(wa))
+		if err != nil {
+			vkit.Violate(t, prop, "C12/roundtrip-load-failed/"+c.Type+"/second-store", err.Error(), c)
+			return false
+		}
+		type wk interface{ GetWrappingKeyId() string }
+		id := got2.(wk).GetWrappingKeyId()
+		switch m := want2.(type) {
+		case *types.NodeCredentials:
+			m.WrappingKeyId = id
+		case *types.NodeInformation:
+			m.WrappingKeyId = id
+		case *types.RootCertificates:
+			m.WrappingKeyId = id
+		case *types.ServerLedActivationToken:
+			m.WrappingKeyId = id
+			m.CreationTimeMarshaled, _ = proto.Marshal(m.CreationTime)
+		}
+		if !proto.Equal(got2, want2) {
+			vkit.Violate(t, prop, "C12/roundtrip-differs/"+c.Type+"/second-store", fmt.Sprintf("after changing the sensitive values of %s and storing it again, loading with the same wrapper did not return what was stored", src.name), c)
+			return false
+		}
 	}
 	return true
 }
